@@ -1,1 +1,3 @@
 import SmtpV.Props.C14
+#print axioms SmtpV.Props.C14.C14_xtext_roundtrip
+#print axioms SmtpV.Props.C14.C14_monitor_model
